@@ -204,8 +204,11 @@ impl Prop for C19 {
         // composite structures from files without embedded support structures
         let x = case.val.build();
         let lib_bytes = ser_bytes(x.as_ref());
-        if case.val.opt % 5 == 0 {
-            let elems = docfmt::to_elements(&lib_bytes).map_err(|e| Fail::new("harness", e))?;
+        if case.val.opt % 5 == 0 || case.val.opt % 5 == 2 {
+            let in_option = case.val.opt % 5 == 2;
+            let all = docfmt::to_elements(&lib_bytes).map_err(|e| Fail::new("harness", e))?;
+            // Some(x) = length element + x
+            let elems: Vec<u64> = if in_option { all[1..].to_vec() } else { all };
             let stripped = match &case.val.leaf {
                 Leaf::Sparse(_) | Leaf::SparseBig(_) | Leaf::SparseMulti(_, _) => Some(("SparseVector", docfmt::strip_sparse(&elems))),
                 Leaf::Core(_) => Some(("WMCore", docfmt::strip_core(&elems))),
@@ -213,7 +216,11 @@ impl Prop for C19 {
                 _ => None,
             };
             if let Some((what, s)) = stripped {
-                let s = s.map_err(|e| Fail::new("strip", format!("cannot strip supports from a {} file: {}", what, e)))?;
+                let mut s = s.map_err(|e| Fail::new("strip", format!("cannot strip supports from a {} file: {}", what, e)))?;
+                if in_option {
+                    // an optional structure whose embedded bitvectors carry no supports: the length prefix is the stripped size
+                    s.insert(0, s.len() as u64);
+                }
                 let b = docfmt::to_bytes(&s);
                 let mut r = ChunkedReader::new(&b, &case.chunks);
                 let loaded = x.load_same(&mut r).map_err(|e| Fail::new(format!("load-stripped.{}", what), format!("a {} file whose embedded bitvectors carry no support structures was rejected: {}", what, e)))?;
@@ -221,6 +228,7 @@ impl Prop for C19 {
                 ensure!(loaded.eq_dyn(x.as_ref()), format!("load-stripped.{}.eq", what), "{} loaded from a file without embedded supports != the original", what);
                 ensure_eq!(loaded.probe(), x.probe(), format!("load-stripped.{}.answers", what), "{} loaded from a file without embedded supports answers the query plan differently", what);
                 rep.class(&format!("stripped:{}", what));
+                rep.class_if(in_option, "stripped-inside-option");
             }
         }
 
@@ -257,7 +265,7 @@ impl Prop for C19 {
                 return Err(format!("support subset {:03b} was never written", m));
             }
         }
-        for c in ["stripped:SparseVector", "stripped:WMCore", "stripped:WaveletMatrix", "skip_option:None", "skip_option:Some", "skip_option:SomeNone", "skip_option:SomeSome", "long-superblock(ones)", "long-superblock(zeros)"] {
+        for c in ["stripped:SparseVector", "stripped:WMCore", "stripped:WaveletMatrix", "stripped-inside-option", "skip_option:None", "skip_option:Some", "skip_option:SomeNone", "skip_option:SomeSome", "long-superblock(ones)", "long-superblock(zeros)"] {
             if classes.get(c).copied().unwrap_or(0) == 0 {
                 return Err(format!("no generated case reached class {}", c));
             }
